@@ -111,7 +111,7 @@ def collect(prop, ctx):
                         'detail': r.get('stderr_tail', '')[-1500:]})
             continue
         pat = re.compile(v['pattern'])
-        names = [n for n in r['functions'] if pat.search(n)]
+        names = [n for n in r['functions'] if pat.search(n) and not re.search(r'::axiom_\w+$', n)]
         if not names:
             obs.append({'name': 'verus:%s:%s' % (tag, v['pattern']), 'engine': 'verus', 'status': 'undecided',
                         'why': 'lost anchor: no verified function matches'})
@@ -306,7 +306,8 @@ def write_evidence(prop, tier, seed, spec, obs, proved, bounded, deferred, faile
             'rewrite_rules_applied': rules,
             'verus_units': [{'crate': k[0], 'features': list(k[1]), 'verified': r.get('verified'), 'errors': r.get('errors'),
                              'smt_ms': r.get('smt_ms'), 'cached': r.get('cached'), 'text_sha256': r.get('text_sha256'),
-                             'external_items': len((r.get('manifest') or {}).get('external', []))} for k, r in ctx._verus.items()],
+                             'external_items': len((r.get('manifest') or {}).get('external', [])),
+                             'assumption_scan': r.get('assumption_scan')} for k, r in ctx._verus.items()],
             'tool_versions': common.tool_versions(),
         },
         'assumptions': trusted,
